@@ -116,6 +116,12 @@ class Ref:
                 return self.ev(a[3], frame, stack, full)
             self.hit("param-undefined-literal")
             return "{{{" + str(kk) + "}}}"
+        if k == "CN":
+            # the name part is expanded first (parser functions in it are evaluated when enabled); the call
+            # then behaves like an ordinary call of that name, and is re-emitted under the EXPANDED name
+            self.hit("computed-call-name")
+            nm = a[1] + self.ev(a[2], frame, stack, full)
+            return self.ev(("C", nm, nm.strip(), a[4]), frame, stack, full)
         if k == "C":
             name = a[2]
             expand_it = full or (name in self.lib and name in self.selection)
@@ -195,6 +201,11 @@ class Ref:
                 self.hit("CLASS:pos-trailing-newline")
             if first != first.strip():
                 self.hit("CLASS:disabled-parserfn-first-arg-edge-blank")
+            if frame is not None or full:
+                if "=" in out:
+                    # the re-emitted text of a disabled parser function travels on as (part of) an argument value /
+                    # parameter value; an '=' in it is then read as name=value by the next call
+                    self.hit("CLASS:disabled-parserfn-text-with-equals-inside-expanded-call")
             return out
         if k in ("IF", "EQ", "SW") and not full:
             n0 = len(self.calls)
